@@ -17,7 +17,7 @@ C  code -> spec: Name.to_str / to_canonical_uri / Component.to_str / to_canonica
    the reference INSIDE TLC (NameUriJudge); ordering / equality / is_prefix matrices of random name sets are
    compared with NameLess / PrefixByComponents.
 """
-import json, os, time
+import json, os, time, traceback
 from concurrent.futures import ThreadPoolExecutor
 
 from harness import tlc, urikit
@@ -271,6 +271,42 @@ def record_cpairs(jcomps):
     return {'k': 'cpairs', 'comps': jcomps, 'less': [[a < b for b in cs] for a in cs]}
 
 
+def lib_fn_of(e):
+    fn = 'library'
+    for fr in traceback.extract_tb(e.__traceback__):
+        if '/ndn/' in fr.filename:
+            fn = '%s.%s' % (os.path.basename(fr.filename)[:-3], fr.name)
+    return fn
+
+
+def guarded(ctx, stage, f, *args):
+    """call a stage-B replay; an exception escaping the library is a violation, not a machinery failure"""
+    try:
+        return f(*args)
+    except Exception as e:  # noqa
+        if lib_fn_of(e) == 'library':
+            raise
+        ctx.violation('C09/%s/general/raises-%s' % (lib_fn_of(e), type(e).__name__),
+                      '%s: %s raised %s: %s' % (stage, lib_fn_of(e), type(e).__name__, e), {'kind': stage, 'what': str(e)})
+        return None
+
+
+def safe(ctx, recorder, arg, slim):
+    """run a recorder; an exception escaping the library on a library-produced value is itself a violation"""
+    try:
+        return recorder(arg)
+    except Exception as e:  # noqa
+        fn = 'library'
+        for fr in traceback.extract_tb(e.__traceback__):
+            if '/ndn/' in fr.filename:
+                fn = '%s.%s' % (os.path.basename(fr.filename)[:-3], fr.name)
+        cls = 'noncanonical-typed-number' if slim.get('k') == 'name' and odd_number(slim['n']) else 'general'
+        ctx.violation('C09/%s/%s/raises-%s' % (fn, cls, type(e).__name__),
+                      'C: %s raised %s: %s while printing/comparing %s' % (fn, type(e).__name__, e, json.dumps(slim)[:600]),
+                      {'kind': 'judge', 'clause': 'raises', 'input': slim})
+        return None
+
+
 # ------------------------------------------------------------------------------------------ random inputs
 
 BOUNDARY_NUMS = [0, 1, 255, 256, 65535, 65536, 2 ** 32 - 1, 2 ** 32, 2 ** 63, 2 ** 64 - 1]
@@ -370,8 +406,33 @@ ESC_POOL = ['a', 'B', '7', '-', '.', '_', '~', '=', '%', '%2', '%2F', '%zz', '%4
             '32=', '0=', '65535=', '65536=', '253=', '12', 'ab', 'AB', '0f', '\x00', '\x7f', '+', '..']
 
 
+BODY_POOL = list('abcXYZ0189-._~ :?#[]@!$&\'()*+,;/\t') + ['é', '名', '😀', 'Σ', '%41', '%2F', '%2f', '%00', '%ff', '%25', '%3D',
+                                                              '\x00', '\x7f', '..', 'seg', 'sha256digest']
+
+
 def rand_text(rng):
-    return ''.join(rng.choice(ESC_POOL) for _ in range(rng.randint(0, 6)))
+    """component strings: mostly well-formed (so that both the library and the reference accept them), some junk"""
+    x = rng.random()
+    if x < 0.35:
+        return ''.join(rng.choice(ESC_POOL) for _ in range(rng.randint(0, 6)))
+    if x < 0.55:
+        pre = rng.choice(['seg=', 'off=', 'v=', 't=', 'seq='])
+        y = rng.random()
+        if y < 0.5:
+            return pre + str(rng.choice(BOUNDARY_NUMS + [rng.getrandbits(rng.randint(1, 64))]))
+        if y < 0.7:
+            return pre + '0' * rng.randint(1, 3) + str(rng.getrandbits(20))
+        if y < 0.85:
+            return pre + str(2 ** 64 + rng.getrandbits(8))
+        return pre + rng.choice(['', 'x', '1.5', '-1', '1 ', '%31', '0x10', '١'])
+    if x < 0.7:
+        pre = rng.choice(['sha256digest=', 'params-sha256='])
+        n = rng.choice([0, 1, 2, 32, 32, 33])
+        h = rng.randbytes(n).hex()
+        h = rng.choice([h, h.upper(), h.title(), h[:-1] if h else 'g', h + 'zz'])
+        return pre + h
+    pre = rng.choice(['', '', '', '', '8=', '08=', '32=', '253=', '65535=', '0=', '65536=', '1=', '50=', '7='])
+    return pre + ''.join(rng.choice(BODY_POOL) for _ in range(rng.randint(0, 8)))
 
 
 # ------------------------------------------------------------------------------------------ the check
@@ -434,6 +495,10 @@ def run(ctx):
         _run(ctx, pool, t0, nr, nq)
     finally:
         pool.shutdown(wait=True)
+        for m in ('comp', 'name'):      # the state dumps are large (up to ~300 MB); everything else in build/ is small
+            p = os.path.join(tlc.BUILD, 'c09-%s-%s.dump' % (m, ctx.tier))
+            if os.path.exists(p):
+                os.remove(p)
 
 
 def _run(ctx, pool, t0, nr, nq):
@@ -444,17 +509,24 @@ def _run(ctx, pool, t0, nr, nq):
     if 'C' in ctx.stages:
         rng = ctx.rng
         for _ in range(ctx.pick(1500, 24000)):
-            rnd.append(record_name(rand_name(rng, allow_odd=False)))
+            n = rand_name(rng, allow_odd=False)
+            rnd.append(safe(ctx, record_name, n, {'k': 'name', 'n': n}))
         for _ in range(ctx.pick(300, 3000)):
-            rnd.append(record_name(rand_name(rng, allow_odd=True)))
+            n = rand_name(rng, allow_odd=True)
+            rnd.append(safe(ctx, record_name, n, {'k': 'name', 'n': n}))
         for _ in range(ctx.pick(1200, 12000)):
-            rnd.append(record_esc(rand_text(rng)))
+            t = rand_text(rng)
+            rnd.append(safe(ctx, record_esc, t, {'k': 'esc', 'raw': codes(t)}))
         for _ in range(ctx.pick(250, 3000)):
-            rnd.append(record_pairs(rand_related_names(rng, rng.randint(4, 9))))
+            ns = rand_related_names(rng, rng.randint(4, 9))
+            rnd.append(safe(ctx, record_pairs, ns, {'k': 'pairs', 'names': ns}))
         for _ in range(ctx.pick(100, 1000)):
             cs = [c for n in rand_related_names(rng, 8) for c in n][:12]
             if cs:
-                rnd.append(record_cpairs(cs))
+                rnd.append(safe(ctx, record_cpairs, cs, {'k': 'cpairs', 'comps': cs}))
+        n_all = len(rnd)
+        rnd = [r for r in rnd if r is not None]
+        ctx.traces += n_all - len(rnd)
         for r in rnd:
             if r['k'] == 'name' and any(c['t'] != 8 or not c['v'] for c in r['n']):
                 ctx.nt(['n', r['n']])
@@ -483,13 +555,16 @@ def _run(ctx, pool, t0, nr, nq):
     sweep, jsweep = [], None
     if 'C' in ctx.stages:
         # sweep: the library's printing of every enumerated component, judged by parse-back
-        sweep = [record_name([{'t': rec['t'], 'v': rec['v']}]) for rec in comp_recs]
+        sweep = [safe(ctx, record_name, [{'t': rec['t'], 'v': rec['v']}], {'k': 'name', 'n': [{'t': rec['t'], 'v': rec['v']}]})
+                 for rec in comp_recs]
+        ctx.traces += sum(1 for r in sweep if r is None)
+        sweep = [r for r in sweep if r is not None]
         jsweep = pool.submit(urikit.judge_batches, 'NameUriJudge', JUDGE_CFG, 'c09-s-%s' % ctx.tier, sweep, 3000, 2)
     if 'B' in ctx.stages:
         nb = 0
         for rec in comp_recs:
             nb += 1
-            for fn, style, obs, detail in replay_comp(rec):
+            for fn, style, obs, detail in guarded(ctx, 'B-comp', lambda r: list(replay_comp(r)), rec) or ():
                 if fn is None:
                     ctx.evaluations += detail
                     continue
@@ -504,13 +579,13 @@ def _run(ctx, pool, t0, nr, nq):
     if 'B' in ctx.stages:
         with open(outs['pair']) as f:
             prec = json.loads(f.readline())
-        bad, ne = replay_sorted_names(prec)
+        bad, ne = guarded(ctx, 'B-pair', replay_sorted_names, prec) or ({}, 0)
         ctx.evaluations += ne
         for field, what in bad.items():
             ctx.violation('C09/%s/general/%s' % (FN_OF_CLAUSE[field], field), 'B pair: ' + what, {'kind': 'B-pair', 'what': what})
         with open(outs['ord']) as f:
             orec = json.loads(f.readline())
-        bad, ne = replay_sorted_comps(orec)
+        bad, ne = guarded(ctx, 'B-ord', replay_sorted_comps, orec) or ({}, 0)
         ctx.evaluations += ne
         for field, what in bad.items():
             ctx.violation('C09/%s/general/%s' % (FN_OF_CLAUSE[field], field), 'B ord: ' + what, {'kind': 'B-ord', 'what': what})
@@ -522,7 +597,7 @@ def _run(ctx, pool, t0, nr, nq):
             if not isinstance(rec, dict):
                 continue
             nn += 1
-            for fn, style, obs, detail in replay_name(rec):
+            for fn, style, obs, detail in guarded(ctx, 'B-name', lambda r: list(replay_name(r)), rec) or ():
                 if fn is None:
                     ctx.evaluations += detail
                     continue
@@ -554,14 +629,18 @@ def replay(ctx, path):
     kind = obj.get('kind')
     if kind == 'judge':
         inp = obj['input']
-        if inp['k'] == 'name':
-            rec = record_name(inp['n'])
-        elif inp['k'] == 'esc':
-            rec = record_esc(txt(inp['raw']))
-        elif inp['k'] == 'pairs':
-            rec = record_pairs(inp['names'])
-        else:
-            rec = record_cpairs(inp['comps'])
+        try:
+            if inp['k'] == 'name':
+                rec = record_name(inp['n'])
+            elif inp['k'] == 'esc':
+                rec = record_esc(txt(inp['raw']))
+            elif inp['k'] == 'pairs':
+                rec = record_pairs(inp['names'])
+            else:
+                rec = record_cpairs(inp['comps'])
+        except Exception as e:  # noqa
+            print('library raised %s: %s on %s' % (type(e).__name__, e, json.dumps(inp)[:800]))
+            return 1
         print(describe(rec))
         rej = judge(ctx, [rec], 'c09-replay', chunk=10, par=1)
         print('rejected clauses: %s' % rej[0] if rej else 'accepted by the reference')
